@@ -3,8 +3,10 @@
 import json, os, shutil, sys, re
 pid, m, det = sys.argv[1], sys.argv[2], sys.argv[3]
 by = " ".join(sys.argv[4:])
-src = "/tmp/seed_out/%s/%s" % (pid, m)
-dst = "/verif/seeded/%s-%s" % (pid, m)
+root = os.environ.get("SEED_ROOT", "/tmp/seed_out")
+tag = os.environ.get("SEED_TAG", "")
+src = "%s/%s/%s" % (root, pid, m)
+dst = "/verif/seeded/%s-%s%s" % (pid, tag, m)
 os.makedirs(dst, exist_ok=True)
 shutil.copy(os.path.join(src, "patch.diff"), dst)
 shutil.copy(os.path.join(src, "demo.rs"), dst)
@@ -12,7 +14,7 @@ ver = json.load(open(os.path.join(src, "verify.json")))
 readme = open(os.path.join(src, "README.md")).read()
 demo_path = re.search(r"crates/[A-Za-z0-9_./-]+\.rs", open(os.path.join(src, "demo_path.txt")).read()).group(0)
 meta = {
-  "property": pid, "seed": m,
+  "property": pid, "seed": tag + m, "round": 2 if tag else 1,
   "breaks": readme.strip().split("\n\n")[0][:600],
   "needs_to_manifest": "see readme_excerpt",
   "readme_excerpt": readme[:2500],
